@@ -294,7 +294,7 @@ def _mk(key, focus, L, extras, roundtrip, t, tag):
 
 
 def queries(tier, seed):
-    t = 120 if tier == "quick" else 900
+    t = 300 if tier == "quick" else 900          # (the widest windows need ~120 s on an idle machine: headroom for a loaded one)
     qs = [Q("native/sweep", "sweep", engine="py", cto=120, what="all classes: reference-table pairing, None rejection, round trip")]
     keys = sorted(CLASSES)
     for ki, key in enumerate(keys):
